@@ -84,11 +84,15 @@ def profiles_for(pid, tier):
         "C01": [("general", dict(three, w_add=16, w_open=12, w_sweep=3, w_restart=2), N(160, 1500)),
                 ("reuse", dict(base, apps=["a", "b"], client_mailboxes=["m1"], names=["1"], w_add=14, w_open=12, w_close=12,
                                w_claim=3, w_allocate=0, w_sweep=4, w_restart=2), N(120, 1200)),
-                ("ints", dict(base, int_ids=True, w_add=16, w_open=12), N(40, 300))],
+                ("ints", dict(base, int_ids=True, w_add=16, w_open=12), N(40, 300)),
+                ("shared-ids", dict(base, apps=["a", "b"], shared_mailbox_ids=True, client_mailboxes=["m1", "m2"], w_add=16,
+                                    w_open=14, w_claim=2, w_allocate=0), N(80, 600))],
         "C02": [("general", dict(three, w_add=18, w_open=12, w_reconnect=8, w_sweep=4, w_restart=2), N(160, 1500)),
                 ("restart-sweep", dict(base, apps=["a"], sides=["s1", "s2"], client_mailboxes=["m1"], names=["1"], w_claim=2,
                                        w_allocate=0, w_add=16, w_open=14, w_close=3, w_sweep=8, w_restart=5, w_connect=10,
-                                       w_bigjump=0), N(160, 1500))],
+                                       w_bigjump=0), N(160, 1500)),
+                ("shared-ids", dict(base, apps=["a", "b"], shared_mailbox_ids=True, client_mailboxes=["m1", "m2"], w_add=16,
+                                    w_open=14, w_claim=2, w_allocate=0), N(80, 600))],
         "C03": [("general", dict(three, w_claim=16, w_release=8, w_close=8, w_restart=2, w_sweep=3, names=["1", "2", "7"]), N(200, 2000))],
         "C04": [("general", dict(three, w_allocate=14, w_claim=8, w_release=8, names=["1", "2", "3", "03", "٣", "12", "x"],
                                  w_sweep=2), N(160, 1500)),
